@@ -400,7 +400,7 @@ pub fn run_c17_vamm(run: &mut Run, tier: &Tier) {
         Tier::Quick => vec![(1000 * dd + 7, 100 * dd + 3), (dd, dd)],
         Tier::Thorough => vec![(1000 * dd, 100 * dd), (1000 * dd + 7, 100 * dd + 3), (dd, dd), (333_333_337, 7_000_003), (dd, 1000 * dd), (1000 * dd, dd)],
     };
-    let depth = tier.pick(2, 3);
+    let depth = tier.pick(3, 3);
     for (q, b) in pairs {
         let m = VModel {
             cfg: VCfg { quote_reserve: q, base_reserve: b, decimals: 6, fluct: 0, real_feed: false },
@@ -671,7 +671,7 @@ pub fn run_c18(tier: Tier) -> i32 {
         amounts: tier.pick(vec![7 * dd + 3, 150 * dd], vec![7 * dd + 3, 40 * dd, 150 * dd]),
         secs: tier.pick(vec![1, 15, 899, 900, 3600, 691_200], vec![1, 15, 899, 900, 3600, 691_200]),
     };
-    run.explore("vAMM TWAP", vparams(&m), &m, &[vec![]], &Limits::new(tier.pick(4, 6)));
+    run.explore("vAMM TWAP", vparams(&m), &m, &[vec![]], &Limits::new(tier.pick(5, 6)));
     // a long history: trades in 120 consecutive 10-second blocks, then every sequence to the bound
     let mut busy = vec![];
     for i in 0..120 {
@@ -694,7 +694,7 @@ pub fn run_c18(tier: Tier) -> i32 {
         pv = vparams(&p);
         pv["feed"] = json!(true);
     }
-    run.explore("price feed", pv, &p, &[vec![]], &Limits::new(tier.pick(4, 5)));
+    run.explore("price feed", pv, &p, &[vec![]], &Limits::new(tier.pick(5, 6)));
     run.finish()
 }
 
